@@ -32,11 +32,12 @@ MANIFEST = dict(
          "of REAL compactions (restart suite under the shim): the catalogue is never rewritten while the new file is being "
          "written, the pointer written points at the previous snapshot, only older snapshot files are removed; and by crash "
          "IMAGES taken inside the compaction windows of that journal and restarted by a real node (restart-child): the node "
-         "must serve the state after a prefix of the history that contains every request applied before the kill.",
+         "must serve the state after a prefix of the history that contains every request applied before the kill; the same "
+         "for histories spread over several log files (rollover hook), with crash points around every new / removed log file.",
     note="proof, partial. Not covered by a theorem: crash images of delete-from (strip_log_to) — they are replayed "
          "exhaustively on the real code and on the model for the generated histories (the three defects found this way are "
          "repaired) and enumerated for one concrete history in RaftLog/LogCrashExamples.v; rollover across log files and the "
-         "catalogue-vs-new-log-file ordering (two actors); snapshot data files enter theorem (4) through the snapshot-file round trip of C01 (a partially written new file is never named by the catalogue). The model cannot exhibit: torn single writes "
+         "catalogue-vs-new-log-file ordering (two actors) - these are covered by real-node crash images only; snapshot data files enter theorem (4) through the snapshot-file round trip of C01 (a partially written new file is never named by the catalogue). The model cannot exhibit: torn single writes "
          "(each write call is atomic in the model and in the materialised images), fsync / power loss and directory-entry "
          "durability (the OS survives), and the blocking-pool scheduling that decides in which order writes of different "
          "tokio handles/actors reach the OS (the observed order is recorded and compared, not controlled; the data and index "
@@ -541,18 +542,21 @@ def run(chk, replay=None):
         from checks import c04_images
         import sys as _sys
         n_img = 0
-        for ci in range(1 if quick else 4):
+        for ci in range(2 if quick else 8):
             b = os.path.join(base, "cimg%d" % ci)
             os.makedirs(b)
             try:
-                ccase, cj, cjobs, couts, cbad, cstats = c04_images.crash_images(_sys.modules[__name__], rng, b, 16 if quick else 48)
+                # even: one log file, compactions every few entries; odd: several log files (rollover hook), compactions that
+                # cut across file boundaries, crash points also around every new / removed log file
+                ccase, cj, cjobs, couts, cbad, cstats = c04_images.crash_images(_sys.modules[__name__], rng, b, (16 if quick else 48) if ci % 2 == 0
+                                                                                else (24 if quick else 60), multi_file=(ci % 2 == 1))
             except AssertionError as ex:
                 chk.violation("restart suite under crashfs failed: %s" % str(ex)[:200], {"broken": "harness"}, False)
                 continue
             n_img += len(cjobs)
             for pnt, what in cbad:
                 chk.classify("compaction-crash-image",
-                             "a node killed during a compaction (after file mutation #%d of the observed journal) and restarted: %s" % (pnt, what),
+                             "a node killed during a compaction / log rollover (after file mutation #%d of the observed journal) and restarted: %s" % (pnt, what),
                              {"suite": "restart under crashfs + restart-child", "case": ccase, "journal_prefix": pnt,
                               "journal_tail": [[m[0], m[1].split("/data/")[-1]] + ([m[2]] if len(m) > 2 and not isinstance(m[2], bytes) else [])
                                                for m in cj[max(0, pnt - 12):pnt]]})
